@@ -146,7 +146,7 @@ func (w *vhWorld) inflightIn(b *workflow.Block, seqOnly bool) int {
 func (w *vhWorld) onEnter(in *kit.Info, c *kit.Call) {
 	if w.returned {
 		w.lateEvents++
-		api.Fact("late", "plugin "+in.Key)
+		api.Fact("i:late", "plugin "+in.Key)
 	}
 	p := w.plan
 	if in.Seq != nil {
@@ -318,7 +318,7 @@ func (w *vhWorld) onExit(in *kit.Info, c *kit.Call) {
 func (w *vhWorld) onWrite(v *kit.Vault, id uuid.UUID, old *kit.Image, wr *kit.Write) {
 	if w.returned {
 		w.lateEvents++
-		api.Fact("late", "write "+wr.Img.Name)
+		api.Fact("i:late", "write "+wr.Img.Name)
 	}
 	if w.has(oC08) && old != nil {
 		k := wr.Img.Kind
@@ -374,7 +374,7 @@ func (w *vhWorld) checkTerminalConsistent(tag string) {
 		im := w.img(id)
 		api.Assert(im.Status != workflow.Running, tag+": nothing in the stored plan is still Running")
 		if vhTerminal(im.Status) {
-			api.Assert(!im.End.Before(im.Start), tag+": start<=end")
+			api.Assert(!im.End.Before(im.Start), tag+": start<=end ("+im.Kind.String()+")")
 		}
 	}
 	api.Assert(w.mon.InflightTotal() == 0, tag+": no plugin still executing")
